@@ -252,30 +252,44 @@ def r4(ctx):
     loads = [n for c in method_calls(f_ip, "load_wsgi") for n in nodes_with(f_ip, c)]
     ctx.check("C03.R4", bool(loads) and all(any(f_ip.cfg.dominates(l, b, follow_exc=False) for l in loads) for b in bs), key(f_ip, "booted-after-load"), site(f_ip),
               "booted is set before the application is loaded", "booted after load_wsgi")
-    # reaper side: HaltServer(reason, code) under `exitcode == code`
-    raises = [n for n in f_reap.cfg.stmts(ast.Raise) if n.raised and n.raised.endswith("HaltServer")]
-    seen = set()
+    # reaper side (evaluated): a reaped worker whose wait status is code << 8 makes reap_workers raise
+    # HaltServer(reason, code) exactly for the two boot-failure codes -- however the comparison is written
+    # (if-chain, table + loop, helper)
+    g_r = f_reap.cfg
+    wpn = [n for c in calls_to(repo, f_reap, "os.waitpid") for n in nodes_with(f_reap, c)]
+    ctx.need(wpn, "C03.R4: reap_workers never calls waitpid")
+    st = wpn[0].ast
+    ctx.need(isinstance(st, ast.Assign) and isinstance(st.targets[0], ast.Tuple) and len(st.targets[0].elts) == 2 and all(isinstance(x, ast.Name) for x in st.targets[0].elts),
+             "C03.R4: `wpid, status = os.waitpid(..)` not recognised")
+    PID, STATUS = [x.id for x in st.targets[0].elts]
+    raises = [n for n in g_r.stmts(ast.Raise) if n.raised and n.raised.endswith("HaltServer")]
+    probes = {}
     for n in raises:
         call = n.ast.exc
-        arg = call.args[1] if isinstance(call, ast.Call) and len(call.args) > 1 else None
-        nm = tail(arg) if arg is not None else None
-        seen.add(nm)
-
-        def recog(e, nm=nm):
-            c = compare(e)
-            if c and c[1] in (ast.Eq, ast.NotEq) and (tail(c[2]) == nm or tail(c[0]) == nm):
-                return -1 if c[1] is ast.Eq else +1     # C = 'exit code differs from nm'
-            return None
-        p, hits = guard_check(f_reap, [n], recog)
-        ctx.check("C03.R4", nm in codes and p is None, key(f_reap, "halt|%s" % nm), site(f_reap, n),
-                  "HaltServer is raised with %s without the child's exit code having been compared with it" % nm, "raised iff exitcode == %s" % nm, path=p and f_reap.cfg.fmt_path(p))
-    for nm in codes:
-        ctx.check("C03.R4", nm in seen, key(f_reap, "reaper-knows|" + nm), site(f_reap), "reap_workers does not turn exit code %s into HaltServer: a worker that cannot boot would be respawned forever" % nm,
-                  "reaper halts on %s" % nm)
-    # exit code decoding: status >> 8
-    dec = [n for n in f_reap.cfg.stmts(ast.Assign) if isinstance(n.ast.value, ast.BinOp) and isinstance(n.ast.value.op, ast.RShift) and const(n.ast.value.right, NO) == 8]
-    dec += [n for n in f_reap.cfg.stmts(ast.Assign) if "WEXITSTATUS" in norm(n.ast.value) or "waitstatus_to_exitcode" in norm(n.ast.value)]
-    ctx.check("C03.R4", bool(dec), key(f_reap, "decode-status"), site(f_reap), "the wait status is not decoded into an exit code (status >> 8)", "exit code = status >> 8")
+        if isinstance(call, ast.Call):
+            arg = call.args[1] if len(call.args) > 1 else next((k.value for k in call.keywords if k.arg == "exit_status"), None)
+            if arg is not None:
+                probes[n.id] = ("halt", lambda ex, env, a=arg: ex.ev(a, env))
+    rows = []
+    for code in sorted(set(vals) | {0, 1, 2, 5, 127, 255}):
+        outs = []
+        for b, l in wpn[0].out:
+            if l == "next":
+                outs += Explorer(f_reap).run(b, {PID: 4242, STATUS: code << 8, "self.reexec_pid": 0}, stop=lambda n: n in wpn, probes=probes)
+        got = set()
+        for o in outs:
+            hv = [e[1] for e in o.events if isinstance(e, tuple) and e[0] == "halt"]
+            if o.kind == "raise" and hv:
+                got.add("halt(%s)" % hv[0])
+            elif o.kind == "raise":
+                got.add("raise")
+            else:
+                got.add("continue")
+        want = "halt(%s)" % code if code in vals else "continue"
+        rows.append({"exit_code": code, "outcome": sorted(got), "required": want})
+        ctx.check("C03.R4", got == {want}, key(f_reap, "reaper|exit=%s" % code), site(f_reap, text="worker exit code %s" % code),
+                  "a worker that exits with code %s makes reap_workers %s, required %s%s" % (code, sorted(got), want, " (a worker that cannot boot would be respawned forever)" if code in vals else ""), want)
+    ctx.table("C03.R4 reaper", rows)
     # run(): HaltServer -> halt(reason, exit_status)
     hs = [h for h in walk_own(f_run.node) if isinstance(h, ast.ExceptHandler) and h.type is not None and "HaltServer" in norm(h.type)]
     okk = False
